@@ -396,6 +396,7 @@ func init() {
 			apply := c.LookupPkgFunc("lisp/lisplib/libschema.applyConstraint")
 			isNil := c.LookupMethod("lisp.LVal.IsNil")
 			typeFld := c.LookupField("lisp.LVal.Type")
+			strFldS := c.LookupField("lisp.LVal.Str")
 			if apply == nil || isNil == nil || typeFld == nil {
 				return []Obligation{anchorMissing("SCHEMA.success-not-error", "libschema.applyConstraint / LVal.IsNil / LVal.Type")}
 			}
@@ -435,6 +436,12 @@ func init() {
 								"the result of applyConstraint is tested with IsNil(): a nested key constraint that succeeded returns the key's name, which this reads as a failure ((s:has-key \"a\" (s:has-key \"b\" s:int)) can never match)", true))
 						}
 					case *ast.BinaryExpr:
+						if (x.Op == token.EQL || x.Op == token.NEQ) && strFldS != nil && FieldOfSelector(info, x.X) == strFldS {
+							if se, ok := ast.Unparen(x.X).(*ast.SelectorExpr); ok && isResult(se.X) {
+								obs = append(obs, mkOb(c, "SCHEMA.success-not-error", u, ord.next("condition test on a constraint result"), x, Violated,
+									"the decision depends on WHICH condition the inner constraint signalled (`"+types.ExprString(x)+"`): an inverting constraint (s:not, s:is-falsy) is then no longer the negation of its inner constraint for values the inner one refuses with another condition", true))
+							}
+						}
 						if (x.Op == token.EQL || x.Op == token.NEQ) && FieldOfSelector(info, x.X) == typeFld {
 							if se, ok := ast.Unparen(x.X).(*ast.SelectorExpr); ok && isResult(se.X) {
 								if o, ok := identObjOrSel(info, x.Y).(*types.Const); ok && o.Name() == "LError" {
@@ -516,6 +523,119 @@ func init() {
 					})
 				}
 				walk(u.Decl.Body, false)
+			}
+			return obs
+		}})
+}
+
+func init() {
+	register(&Rule{ID: "SCHEMA.children-applied", Floor: 2,
+		Doc: "a validator closure that applies a whole list of child constraints to its own input (the type handlers' shared tail, s:no-other-keys) reaches a success return only through that loop: no `return lisp.Nil()` comes before every child was applied — an early success (an `empty map` or `nothing to check` shortcut) would skip a required s:has-key or any other child constraint",
+		Run: func(c *Ctx) []Obligation {
+			apply := c.LookupPkgFunc("lisp/lisplib/libschema.applyConstraint")
+			nilFn := c.LookupPkgFunc("lisp.Nil")
+			if apply == nil || nilFn == nil {
+				return []Obligation{anchorMissing("SCHEMA.children-applied", "libschema.applyConstraint / lisp.Nil")}
+			}
+			mkVal := map[string]bool{"newValidator": true, "newNamedValidator": true, "NewValidator": true}
+			var obs []Obligation
+			for _, u := range c.Funcs(func(p string) bool { return rel(p) == "lisp/lisplib/libschema" }) {
+				info := u.Pkg.TypesInfo
+				ord := &ordinal{}
+				ast.Inspect(u.Decl.Body, func(n ast.Node) bool {
+					ce, ok := n.(*ast.CallExpr)
+					if !ok {
+						return true
+					}
+					fn := Callee(info, ce)
+					if fn == nil || !mkVal[fn.Name()] {
+						return true
+					}
+					for _, a := range ce.Args {
+						lit, ok := ast.Unparen(a).(*ast.FuncLit)
+						if !ok || lit.Type.Params == nil || len(lit.Type.Params.List) < 2 {
+							continue
+						}
+						// the closure's input parameter: the last *LVal parameter
+						var inputObj types.Object
+						for _, f := range lit.Type.Params.List {
+							for _, nm := range f.Names {
+								if o := info.Defs[nm]; o != nil && isLValPtr(c, o.Type()) {
+									inputObj = o
+								}
+							}
+						}
+						if inputObj == nil {
+							continue
+						}
+						// a range over a slice captured from outside whose body applies each element to input
+						var loop *ast.RangeStmt
+						ast.Inspect(lit.Body, func(m ast.Node) bool {
+							rs, ok := m.(*ast.RangeStmt)
+							if !ok || rs.Value == nil {
+								return true
+							}
+							so := identObj(info, rs.X)
+							if so == nil || (so.Pos() >= lit.Pos() && so.Pos() <= lit.End()) {
+								return true // not captured
+							}
+							elem := identObj(info, rs.Value)
+							applies := false
+							ast.Inspect(rs.Body, func(k ast.Node) bool {
+								if ac, ok := k.(*ast.CallExpr); ok && originOf(Callee(info, ac)) == apply && len(ac.Args) == 3 {
+									if identObj(info, ac.Args[1]) == elem && identObj(info, ac.Args[2]) == inputObj {
+										applies = true
+									}
+								}
+								return true
+							})
+							if applies {
+								loop = rs
+							}
+							return true
+						})
+						if loop == nil {
+							continue
+						}
+						fc := c.cfgOf(u, lit)
+						var loopBlock *cfg.Block
+						for _, b := range fc.G.Blocks {
+							if b.Stmt == loop && b.Kind == cfg.KindRangeLoop && fc.Live(b) {
+								loopBlock = b
+							}
+						}
+						construct := ord.next("success returns of a list-applying validator")
+						if loopBlock == nil {
+							obs = append(obs, mkOb(c, "SCHEMA.children-applied", u, construct, lit, Undecided, "child loop not located in the closure's CFG", false))
+							continue
+						}
+						bad := ""
+						for _, b := range fc.G.Blocks {
+							if !fc.Live(b) {
+								continue
+							}
+							for _, nd := range b.Nodes {
+								rs, ok := nd.(*ast.ReturnStmt)
+								if !ok || len(rs.Results) != 1 {
+									continue
+								}
+								rc, ok := ast.Unparen(rs.Results[0]).(*ast.CallExpr)
+								if !ok || originOf(Callee(info, rc)) != nilFn {
+									continue
+								}
+								if !fc.BlockDominates(loopBlock, b) {
+									bad = c.Pos(rs.Pos())
+								}
+							}
+						}
+						if bad == "" {
+							obs = append(obs, mkOb(c, "SCHEMA.children-applied", u, construct, loop, Proved, "every `return lisp.Nil()` is dominated by the loop that applies each child constraint to the input", true))
+						} else {
+							obs = append(obs, mkOb(c, "SCHEMA.children-applied", u, construct, loop, Violated, "the validator can return success ("+bad+") without having applied its child constraints to the input: a required key constraint nested in it is not enforced on that path", true))
+						}
+					}
+					return true
+				})
 			}
 			return obs
 		}})
